@@ -18,11 +18,12 @@ type builder struct {
 	tracers     []int
 	direct      map[int]bool // registration made after installation: the SDK's own Registration is handed out
 	unregCalled map[int]bool
+	origin      map[int]int // repeated request -> first request of the identity
 }
 
 func newBuilder() *builder {
 	return &builder{globalMeter: map[int]bool{}, kindOf: map[int]int{}, meterOf: map[int]int{}, obs: map[int][]int{},
-		direct: map[int]bool{}, unregCalled: map[int]bool{}}
+		direct: map[int]bool{}, unregCalled: map[int]bool{}, origin: map[int]int{}}
 }
 
 func (b *builder) add(s Step) bool {
@@ -33,8 +34,23 @@ func (b *builder) add(s Step) bool {
 			b.globalMeter[s.Arg] = true
 		}
 	case opInst:
+		if s.Same > 0 {
+			// the identity of an earlier request, on its meter, with its kind (normalised to the first request)
+			k, ok := b.kindOf[s.Same]
+			if !ok {
+				return false
+			}
+			if o, ok := b.origin[s.Same]; ok {
+				s.Same = o
+			}
+			s.Kind, s.Arg = k, b.meterOf[s.Same]
+			b.origin[id] = s.Same
+		}
 		if !b.globalMeter[s.Arg] {
 			return false
+		}
+		if !isObservable(s.Kind) {
+			s.CB = false
 		}
 		b.kindOf[id], b.meterOf[id] = s.Kind, s.Arg
 		if isObservable(s.Kind) {
@@ -170,6 +186,36 @@ func systematic(kind int) [][]Step {
 	for _, p := range permutations([]int{tC, tR, tU, tI}) {
 		emit(p)
 	}
+	// the same identity requested 2-3 times before (and after) installation: every handle must work
+	dup := func(seq []Step) {
+		b := newBuilder()
+		b.add(Step{Op: opMeter, Arg: 0})
+		for _, st := range seq {
+			b.add(st)
+		}
+		out = append(out, b.finish())
+	}
+	c1 := func(cb bool) Step { return Step{Op: opInst, Arg: 0, Kind: kind, CB: cb} }
+	d1 := func(cb bool) Step { return Step{Op: opInst, Arg: 0, Kind: kind, Same: 1, CB: cb} }
+	inst := Step{Op: opInstall}
+	if !isObservable(kind) {
+		rec := func(i int) Step { return Step{Op: opRecord, Arg: i} }
+		dup([]Step{c1(false), d1(false), inst})
+		dup([]Step{c1(false), d1(false), d1(false), inst})
+		dup([]Step{c1(false), d1(false), rec(1), rec(2), inst})
+		dup([]Step{c1(false), inst, d1(false)})
+		dup([]Step{c1(false), d1(false), inst, d1(false)})
+	} else {
+		reg := func(i int) Step { return Step{Op: opRegister, Arg: 0, Obs: []int{i}} }
+		for _, cb := range [][2]bool{{true, false}, {false, true}, {true, true}, {false, false}} {
+			dup([]Step{c1(cb[0]), d1(cb[1]), inst})
+			dup([]Step{c1(cb[0]), d1(cb[1]), reg(1), reg(2), inst})
+			dup([]Step{c1(cb[0]), d1(cb[1]), reg(2), inst, reg(1)})
+		}
+		dup([]Step{c1(true), d1(true), d1(true), reg(3), inst})
+		dup([]Step{c1(true), inst, d1(true), reg(3)})
+		dup([]Step{inst, c1(true), {Op: opInst, Arg: 0, Kind: kind, Same: 2, CB: true}, reg(2), reg(3)})
+	}
 	if isObservable(kind) {
 		for _, p := range permutations([]int{tC, tR, tI}) {
 			emit(p)
@@ -248,7 +294,11 @@ func randomProgram(r *vgen.Rand) []Step {
 		case 2, 3, 4, 5:
 			b.add(Step{Op: opInst, Arg: r.Intn(3), Kind: r.Intn(nKinds)})
 		case 6:
-			b.add(Step{Op: opInst, Arg: r.Intn(3), Kind: 8 + r.Intn(6)})
+			if all := append(append([]int(nil), b.syncs...), flatten(b.obs)...); len(all) > 0 && r.Bool() {
+				b.add(Step{Op: opInst, Same: vgen.Pick(r, all), CB: r.Bool()}) // an existing identity again
+			} else {
+				b.add(Step{Op: opInst, Arg: r.Intn(3), Kind: 8 + r.Intn(6), CB: r.Bool()})
+			}
 		case 7, 8, 9:
 			if len(b.syncs) > 0 {
 				b.add(Step{Op: opRecord, Arg: vgen.Pick(r, b.syncs)})
@@ -310,4 +360,12 @@ func randomStorm(r *vgen.Rand) *Storm {
 		}
 	}
 	return s
+}
+
+func flatten(m map[int][]int) []int {
+	var out []int
+	for k := 0; k < 8; k++ {
+		out = append(out, m[k]...)
+	}
+	return out
 }
